@@ -1,7 +1,9 @@
 #!/bin/sh
-# tools/try_seed.sh <worktree-with-change-applied> <check id>...   -- run checks against a scratch tree (does not touch /repo)
+# tools/try_seed.sh <worktree-with-change-applied> <check id>...   -- run checks against a scratch tree (does not touch /repo, nor
+# /verif/.work and /verif/evidence: separate scratch directories, so it can run beside other runs)
 wt=$1; shift
 for id in "$@"; do
-  VERIF_REPO=$wt ./check $id --tier quick > /tmp/seed_${SEED_TAG}$id.log 2>&1
+  VERIF_REPO=$wt VERIF_WORK=/tmp/try_work_${SEED_TAG}$id VERIF_EVID=/tmp/try_evid_${SEED_TAG}$id ./check $id --tier quick > /tmp/seed_${SEED_TAG}$id.log 2>&1
   echo "$id rc=$? viol=$(grep -c '^VIOLATION' /tmp/seed_${SEED_TAG}$id.log) :: $(grep -m2 'what:' /tmp/seed_${SEED_TAG}$id.log | tr '\n' ' ' | cut -c1-260)"
+  rm -rf /tmp/try_work_${SEED_TAG}$id
 done
